@@ -15,6 +15,71 @@ PROPS = {
         ],
         outside=COMMON_OUTSIDE + ["write_unary beyond the stated run bound", "backend errors mid-operation"],
     ),
+    "C02": dict(
+        prefixes=["c02_"],
+        level_text="Bounded model checking of the real BufBitReader (u8..u64 words) and BitReader code: one inductive step (read_bits / peek_bits+skip_bits_after_peek / read_unary / skip_bits / clone) from an arbitrary representation-valid reader state (any buffer fill 0..2W-1, any cursor, symbolic data) against the canonical bit layout, asserting value, exact advance, bit_pos and re-establishment of the invariant; a pass covers histories of any length for the listed instantiations within the stated argument bounds.",
+        assumptions=[
+            "read_bits: n <= 64; peek_bits: 1 <= n <= W (buffered) / <= 32 (unbuffered); skip_bits_after_peek(s): s <= last peek",
+            "reader pre-state Inv_r: bits_in_buffer <= 2W-1, buffer bits outside the valid window zero, cursor*W >= bits_in_buffer (exactly the states reachable via new/skip_bits/peek_bits)",
+            "read_unary: the terminating one lies within the buffer plus the next 3 words (zero-extended backend loops forever on an all-zero tail, as documented)",
+            "backend: zero-extended MemWordReader over a symbolic array of K words (K per harness), reads beyond K yield zero",
+        ],
+        outside=COMMON_OUTSIDE + ["peek_bits(n) with n > W on the buffered reader (see C05)", "unary runs longer than the stated window"],
+    ),
+    "C03": dict(
+        prefixes=["c03_"],
+        level_text="Bounded model checking of the real generic codec code (src/codes/*.rs, every write_*/read_* incl. table variants) executed on a model bit stream implementing the library's own BitRead/BitWrite traits: symbolic value over the full 64-bit domain, symbolic parameters, symbolic bit offset (0..=64) and arbitrary following bits; asserts value round trip, exact consumption and intact neighbours. Combination with every real writer/reader word size follows compositionally from C01/C02 (the real streams refine the same canonical model); end-to-end real-writer/real-reader runs are in the thorough tier.",
+        assumptions=[
+            "value domain: v <= 2^64-2 (documented maximum) for gamma/delta/omega/zeta/pi/exp-Golomb, any u64 for VByte/Rice; zeta k in 1..=63; pi/Rice/exp-Golomb k in 0..=63; minimal binary 1<=u<2^64, v<u",
+            "codewords longer than 128 bits are outside (unary-prefixed codes: Rice/Golomb quotient bounded accordingly)",
+            "Golomb modulus b in 1..=64 (quick) / 1..=4096 with v<2^20 (thorough): symbolic 64-bit division with larger moduli does not finish",
+            "model stream MS<E> (256 bits) is the canonical model of C01/C02; its own correctness is checked by c03_ms_selfcheck_* and c03_ms_rebase_*",
+            "quick tier reads on the stream re-based at the symbolic offset (position-independence lemma c03_ms_rebase_*); thorough tier reads in place",
+        ],
+        outside=COMMON_OUTSIDE + ["Golomb moduli above the stated bound", "codewords longer than 128 bits"],
+    ),
+    "C08": dict(
+        prefixes=["c08_"],
+        builds={"quick": [("default", [])], "thorough": [("default", []), ("no_copy_impls", ["no_copy_impls"])]},
+        level_text="Bounded model checking of the real copy_to (BufBitReader u8..u64, BitReader) and copy_from (BufBitWriter u8..u128) code, optimised paths and (thorough tier, crate rebuilt with no_copy_impls) the generic chunked paths: one copy of symbolic length from an arbitrary reader/writer state to/from a model stream that asserts the bit-stream preconditions at every call; asserts the exact bits transferred, exact advance of both sides and re-establishment of the reader/writer invariants, from which all later operations behave as after a bit-by-bit transfer (C01/C02 hold from every invariant state).",
+        assumptions=[
+            "copy length n <= 2W+64 (<=200 for u128 words): covers n=0, n inside the buffer, n spanning several words",
+            "reader/writer pre-states as in C01/C02; more than one word buffered (after a look-ahead refill) included",
+            "the peer stream is the model stream MS<E> (canonical model of C01/C02), which asserts n<=64 on every primitive call",
+        ],
+        outside=COMMON_OUTSIDE + ["copies longer than the stated bound (same loops, more iterations)", "copy between streams of different endianness (not claimed by the property)"],
+    ),
+    "C11": dict(
+        prefixes=["c11_"],
+        level_text="Bounded model checking of the real WordAdapter code over nondeterministic std::io stubs: write_word (1-2 symbolic words) over a sink whose every call may accept any count 0..=len, return Interrupted (budget 2) or fail hard; read_word over a source with symbolic data/length/cursor and the same fault schedule; word_pos/set_word_pos over std::io::Cursor. Asserts: Ok implies every byte transferred exactly once and in order; errors are never swallowed; positions are exact.",
+        assumptions=[
+            "the wrapped object obeys the std::io::Read/Write contracts and nothing else (stub: FaultyW/FaultyR, symbolic schedule of <=12 calls, <=2 Interrupted results)",
+            "stubs: alloc::fmt::format / ToString::to_string return an empty String (error text not part of the property); error values are forgotten, not dropped",
+            "std::io::{Cursor, read_exact, write_all} as shipped (executed, not modelled)",
+        ],
+        outside=COMMON_OUTSIDE + ["real files/sockets, BufReader/BufWriter internals", "byte streams whose length is not a multiple of the word size (reported as error by the adapter)"],
+    ),
+    "C12": dict(
+        prefixes=["c12_"],
+        level_text="Bounded model checking of the real std::io::Write impl of BufBitWriter (all 10 endianness x word instantiations) and std::io::Read impl of BufBitReader/BitReader: one call with a symbolic byte slice of symbolic length from an arbitrary writer/reader state (any bit offset, any history), asserting byte-exact placement per bit, the reported count, exact advance and absence of panics.",
+        assumptions=[
+            "slice length bounded per harness (see bounds); bytes symbolic",
+            "writer/reader pre-states as in C01/C02 (representation invariants)",
+            "recording backend / zero-extended memory backend are infallible",
+        ],
+        outside=COMMON_OUTSIDE + ["slices longer than the stated bound (same loops, more iterations)"],
+    ),
+    "C13": dict(
+        prefixes=["c13_"],
+        level_text="Bounded model checking of MemWordReader (strict and zero-extended), MemWordWriterSlice and MemWordWriterVec against an array-plus-cursor model: symbolic backing array (<=4 words) of symbolic length, cursor reached through set_word_pos, one operation with symbolic selector/argument (read, write, seek to any u64, position), then a probe read; errors must leave cursor and storage unchanged.",
+        assumptions=[
+            "backing arrays of at most 4 words (slices of symbolic length 0..=4)",
+            "MemWordWriterVec: vector length 0..=3 and cursor 0..=len are concrete per harness (symbolic Vec reallocation does not finish); contents and written words symbolic; growth is only reachable at cursor==len, so the zero fill of resize is never observable",
+            "zero-extended reader: cursor < 2^64-3 (the increment at usize::MAX overflows; documented in the source as dirty but infallible)",
+            "stubs: alloc::fmt::format and ToString::to_string return an empty String (error messages are not part of the property); error values are forgotten, not dropped",
+        ],
+        outside=COMMON_OUTSIDE + ["symbolic Vec lengths", "cursor within 2 of usize::MAX on the zero-extended reader"],
+    ),
     "C17": dict(
         prefixes=["c17_"],
         level_text="Symbolic check over the whole input type of each width (8..128 bits, pointer size): to_nat/to_int are mutually inverse and follow the documented formula; loop-free, so the bound is the type width itself.",
